@@ -47,6 +47,8 @@ pub struct Profile {
     pub v1: bool,
     /// lock-step lease scenario (C16): rounds of the majority heartbeat schedule with a free minority
     pub lease_rounds: usize,
+    /// name of a scripted scenario (phases of the random scheduler under explicit partitions); empty = none
+    pub script: String,
 }
 
 impl Profile {
@@ -84,6 +86,7 @@ impl Profile {
             joint: false,
             v1: false,
             lease_rounds: 0,
+            script: String::new(),
         }
     }
 
@@ -210,6 +213,87 @@ impl Profile {
                 p.w_crash = 0;
                 p.steps = 900;
             }
+            "s_staleread" => {
+                p.ids = vec![1, 2, 3, 4];
+                p.voters = vec![1, 2, 3];
+                p.learners = vec![4];
+                p.script = "stale_read".into();
+                p.w_crash = 0;
+                p.w_partition = 0;
+                p.w_dup = 3;
+            }
+            "s_stalereadjoint" => {
+                p.ids = vec![1, 2, 3];
+                p.voters = vec![1, 2, 3];
+                p.script = "stale_read_joint".into();
+                p.w_crash = 0;
+                p.w_partition = 0;
+            }
+            "s_lagsnap" => {
+                p.script = "lag_snap".into();
+                p.w_crash = 0;
+                p.w_partition = 0;
+                p.w_dup = 6;
+                p.w_drop = 2;
+                p.proposals = 24;
+                p.max_log = 30;
+                p.randomize_knobs = false;
+            }
+            "s_transfer" => {
+                p.ids = vec![1, 2, 3];
+                p.voters = vec![1, 2, 3];
+                p.script = "transfer_race".into();
+                p.w_crash = 0;
+                p.w_partition = 0;
+                p.w_dup = 5;
+                p.w_drop = 3;
+            }
+            "s_reelect" => {
+                p.ids = vec![1, 2, 3, 4, 5];
+                p.voters = vec![1, 2, 3, 4, 5];
+                p.script = "reelect".into();
+                p.w_crash = 0;
+                p.w_partition = 0;
+                p.async_pct = 50;
+                p.proposals = 30;
+                p.max_log = 30;
+            }
+            "s_flowelect" => {
+                p.script = "flow_elect".into();
+                p.randomize_knobs = true;
+                p.w_crash = 0;
+                p.w_partition = 0;
+                p.proposals = 30;
+                p.max_log = 30;
+                p.w_batch = 2;
+            }
+            "s_confmix" => {
+                p.ids = vec![1, 2, 3, 4];
+                p.voters = vec![1, 2, 3];
+                p.script = "conf_mix".into();
+                p.joint = true;
+                p.conf_changes = 10;
+                p.w_batch = 3;
+                p.w_crash = 2;
+                p.transfers = 3;
+                p.reads = 4;
+                p.max_log = 30;
+                p.proposals = 20;
+            }
+            "explore" => {
+                // continuation profile for drift-guided exploration (resume mode)
+                p.w_compact = 3;
+                p.w_reqsnap = 1;
+                p.reads = 4;
+                p.transfers = 2;
+                p.w_crash = 1;
+                p.w_partition = 2;
+                p.w_dup = 3;
+                p.w_drop = 3;
+                p.proposals = 10;
+                p.max_log = 40;
+                p.steps = 300;
+            }
             "contend" => {
                 p.ids = vec![1, 2, 3, 4];
                 p.voters = vec![1, 2, 3, 4];
@@ -285,6 +369,8 @@ pub struct Sched {
     pub next_ctx: u64,
     pub async_mode: Vec<bool>,
     pub tick_ptr: u64,
+    /// choices applied by scripted scenarios (for replay files)
+    pub record: Vec<Choice>,
 }
 
 pub fn cluster_cfg(prof: &Profile, rng: &mut StdRng) -> ClusterCfg {
@@ -346,6 +432,7 @@ impl Sched {
             next_payload: 1,
             next_ctx: 1,
             tick_ptr: 0,
+            record: vec![],
         };
         (s, cl)
     }
@@ -1070,6 +1157,207 @@ impl Sched {
             }
             self.free_burst(cl, out, &free, burst);
             self.refresh_timeouts(cl);
+        }
+    }
+
+    // ------------------------------------------------------------------ scripted scenarios
+    fn run_steps(&mut self, cl: &mut Cluster, out: &mut Vec<Event>, n: usize) {
+        for _ in 0..n {
+            let c = match self.next_choice(cl) {
+                Some(c) => c,
+                None => return,
+            };
+            self.apply_rec(cl, out, c);
+        }
+    }
+
+    fn apply_rec(&mut self, cl: &mut Cluster, out: &mut Vec<Event>, c: Choice) -> bool {
+        for slot in cl.nodes.iter() {
+            self.record.push(Choice::SetTimeout { n: slot.id, rt: slot.rt_next as u64 });
+        }
+        let r = cl.apply_choice(&c);
+        self.refresh_timeouts(cl);
+        match r {
+            Some(e) => {
+                let ok = e.rk == "ok";
+                out.push(e);
+                self.record.push(c);
+                ok
+            }
+            None => false,
+        }
+    }
+
+    fn leader_of(cl: &Cluster) -> Option<u64> {
+        let mut best: Option<(u64, u64)> = None;
+        for slot in &cl.nodes {
+            if let Some(r) = &slot.raw {
+                if r.raft.state == raft::StateRole::Leader && best.map_or(true, |b| r.raft.term > b.1) {
+                    best = Some((slot.id, r.raft.term));
+                }
+            }
+        }
+        best.map(|b| b.0)
+    }
+
+    fn until_leader(&mut self, cl: &mut Cluster, out: &mut Vec<Event>, max: usize) -> Option<u64> {
+        for _ in 0..max / 10 {
+            if let Some(l) = Self::leader_of(cl) {
+                let r = cl.nodes[cl.slot(l)].raw.as_ref().unwrap();
+                if r.raft.raft_log.committed >= 1 && r.raft.raft_log.applied >= 1 {
+                    return Some(l);
+                }
+            }
+            self.run_steps(cl, out, 10);
+        }
+        Self::leader_of(cl)
+    }
+
+    fn isolate(&mut self, group: &[u64], all: &[u64]) {
+        self.blocked.clear();
+        for a in group {
+            for b in all {
+                if !group.contains(b) {
+                    self.blocked.push((*a, *b));
+                    self.blocked.push((*b, *a));
+                }
+            }
+        }
+    }
+
+    fn do_choice(&mut self, cl: &mut Cluster, out: &mut Vec<Event>, c: Choice) -> bool {
+        self.apply_rec(cl, out, c)
+    }
+
+    pub fn run_script(&mut self, cl: &mut Cluster, out: &mut Vec<Event>) {
+        let ids = self.prof.ids.clone();
+        let name = self.prof.script.clone();
+        match name.as_str() {
+            "stale_read" | "stale_read_joint" => {
+                self.reads_left = 0;
+                let l = match self.until_leader(cl, out, 400) {
+                    Some(l) => l,
+                    None => return,
+                };
+                if name == "stale_read_joint" {
+                    // shrink to {l} through an explicit joint configuration and let the leader apply it
+                    let ch: Vec<ChV> = ids.iter().filter(|x| **x != l).map(|x| ChV { t: "R".into(), id: *x }).collect();
+                    self.do_choice(cl, out, Choice::ProposeConf { n: l, v1: false, tr: "E".into(), ch });
+                    self.run_steps(cl, out, 120);
+                }
+                // the leader (and sometimes a non-voter / one more node) is cut off from the rest
+                let mut group = vec![l];
+                for x in &ids {
+                    if *x != l && self.rng.gen_range(0..3) == 0 && group.len() < 2 {
+                        group.push(*x);
+                    }
+                }
+                if self.prof.learners.len() == 1 && self.rng.gen_bool(0.6) && !group.contains(&self.prof.learners[0]) {
+                    group.push(self.prof.learners[0]);
+                }
+                self.isolate(&group, &ids);
+                self.proposals_left = self.proposals_left.max(6);
+                self.run_steps(cl, out, 220);
+                self.reads_left = 8;
+                self.run_steps(cl, out, 220);
+                self.blocked.clear();
+                self.reads_left += 3;
+                self.run_steps(cl, out, 120);
+            }
+            "lag_snap" => {
+                self.prof.w_compact = 0;
+                let l = match self.until_leader(cl, out, 400) {
+                    Some(l) => l,
+                    None => return,
+                };
+                let f = *ids.iter().filter(|x| **x != l).collect::<Vec<_>>().choose(&mut self.rng).unwrap().clone();
+                self.isolate(&[f], &ids);
+                self.run_steps(cl, out, 200);
+                self.prof.w_compact = 10;
+                self.run_steps(cl, out, 120);
+                self.blocked.clear();
+                self.prof.w_reqsnap = 3;
+                self.reads_left = 4;
+                self.run_steps(cl, out, 350);
+            }
+            "transfer_race" => {
+                let l = match self.until_leader(cl, out, 400) {
+                    Some(l) => l,
+                    None => return,
+                };
+                for round in 0..4 {
+                    let l = Self::leader_of(cl).unwrap_or(l);
+                    let t = *ids.iter().filter(|x| **x != l).collect::<Vec<_>>().choose(&mut self.rng).unwrap().clone();
+                    if round % 2 == 1 {
+                        // the target lags: cut it off for a while first
+                        self.isolate(&[t], &ids);
+                        self.proposals_left = self.proposals_left.max(3);
+                        self.run_steps(cl, out, 60);
+                        self.blocked.clear();
+                    }
+                    if self.rng.gen_bool(0.5) {
+                        let p = self.payload();
+                        self.do_choice(cl, out, Choice::Propose { n: l, p });
+                    }
+                    self.do_choice(cl, out, Choice::Transfer { n: l, to: t });
+                    if self.rng.gen_bool(0.4) {
+                        // demote or remove the target while the transfer is pending
+                        let ty = if self.rng.gen_bool(0.5) { "L" } else { "R" };
+                        self.do_choice(cl, out, Choice::ProposeConf { n: l, v1: false, tr: "A".into(), ch: vec![ChV { t: ty.into(), id: t }] });
+                    }
+                    self.prof.w_campaign = if self.rng.gen_bool(0.5) { 4 } else { 0 };
+                    self.run_steps(cl, out, 160);
+                }
+            }
+            "reelect" => {
+                // leadership alternates between two nodes while entries stay uncommitted on minorities
+                let _ = self.until_leader(cl, out, 500);
+                for _ in 0..5 {
+                    let l = match Self::leader_of(cl) {
+                        Some(l) => l,
+                        None => {
+                            self.run_steps(cl, out, 80);
+                            continue;
+                        }
+                    };
+                    let o = *ids.iter().filter(|x| **x != l).collect::<Vec<_>>().choose(&mut self.rng).unwrap().clone();
+                    // leader + one follower form a minority that keeps accepting proposals
+                    self.isolate(&[l, o], &ids);
+                    self.proposals_left = self.proposals_left.max(4);
+                    self.run_steps(cl, out, 140);
+                    // the minority follower rejoins the majority alone, the old leader stays cut off
+                    self.isolate(&[l], &ids);
+                    self.run_steps(cl, out, 160);
+                    self.blocked.clear();
+                    self.prof.w_campaign = 3;
+                    self.run_steps(cl, out, 120);
+                    self.prof.w_campaign = 0;
+                }
+            }
+            "flow_elect" => {
+                let _ = self.until_leader(cl, out, 400);
+                for _ in 0..5 {
+                    let l = match Self::leader_of(cl) {
+                        Some(l) => l,
+                        None => {
+                            self.run_steps(cl, out, 60);
+                            continue;
+                        }
+                    };
+                    // proposals pile up on a leader that cannot commit, then leadership changes
+                    self.isolate(&[l], &ids);
+                    self.proposals_left = self.proposals_left.max(5);
+                    self.run_steps(cl, out, 120);
+                    self.blocked.clear();
+                    self.run_steps(cl, out, 150);
+                }
+            }
+            "conf_mix" => {
+                let _ = self.until_leader(cl, out, 400);
+                let steps = self.prof.steps;
+                self.run_steps(cl, out, steps);
+            }
+            _ => {}
         }
     }
 }
